@@ -36,7 +36,7 @@ ASSUMPTIONS = [
 COMPONENTS = {"real": ["dali.device.sequences.*", "dali.device.helpers.check_bad_rsp / DeviceInstanceTypeMapper.autodiscover",
                        "dali.device.general command classes, responses, InstanceEventFilter"],
               "stub": ["bus and control devices (sim/busim.py)", "driver"]}
-PROBES = ["instance-implements-part-of-the-filter", "mapper-preloaded-with-stale-entries", "earlier-calls-in-same-process", "filter-24-bit", "filter-16-bit", "filter-8-bit", "filter-plain-int", "stale-dtr", "resolution-not-multiple-of-8",
+PROBES = ["unit-filter-with-unnamed-bits", "instance-implements-part-of-the-filter", "mapper-preloaded-with-stale-entries", "earlier-calls-in-same-process", "filter-24-bit", "filter-16-bit", "filter-8-bit", "filter-plain-int", "stale-dtr", "resolution-not-multiple-of-8",
           "resolution-over-24", "sensor-changed-between-reads", "scheme-invalid", "scan-collision", "scan-reset-state",
           "scan-disabled-instance", "scan-fault", "answer-dropped", "answer-garbled", "scan-64-devices"]
 
@@ -121,6 +121,8 @@ def gen_plan(seed, tier="quick"):
             plan["itype"] = itype
         plan["old_filter"] = r.getrandbits(24)
         pm = plans.rng_for(seed, PROP + "-partial")
+        if kind == "queryfilter" and pm.random() < 0.35:
+            plan["unit_bits"] = pm.choice([0xFFFFFF, 0xFFFFFF, pm.getrandbits(24), pm.getrandbits(24), 0x800000, 0x008080])
         if kind == "setfilter" and pm.random() < 0.3:
             # an instance that implements only some of the filter bits: what it reports back differs
             # from what was asked for, and the sequence returns what the unit reports
@@ -252,6 +254,11 @@ def run_plan(plan):
             gen = SetEventFilters(DeviceShort(dev_addr), InstanceNumber(inst_no), fval)
         else:
             inst.filter = plan["filter"] & ((1 << width) - 1)
+            if plan.get("unit_bits") is not None:
+                # what the unit holds is the unit's business: the factory default (all ones), bits the
+                # enumeration has no name for - the sequence reports what is there
+                inst.filter = plan["unit_bits"] & ((1 << width) - 1)
+                probes["unit-filter-with-unnamed-bits"] = 1
             qcls = cls if cls is not None else pushbutton
             gen = QueryEventFilters(dev_addr, inst_no, qcls)
         sr = busim.run_sequence(gen, bus, answer_faults=faults, cap=40, log=log)
